@@ -128,6 +128,36 @@ Theorem c04_tag_first_entry_last_partial_node_create_fixed : forall n w,
 Proof. exact node_create_fixed_disc. Qed.
 Print Assumptions c04_tag_first_entry_last_partial_node_create_fixed.
 
+(* ---- service OPEN: the node's service tag is created before its registry entry.  Crash behind any prefix of the
+   open (k universally quantified): the cleanup leaves nothing of the dead node, in particular no registry entry,
+   in every world in which the node exists ---- *)
+Theorem c04_open_crash_clean : forall n s w k,
+  inv n w = true -> mem (Tok n) w = true ->
+  let w' := crash k (svc_open n s) w in
+  (forall r, In r (cleanup n w') -> solely n w' r = false) /\ mem (RegN s n) (cleanup n w') = false.
+Proof.
+  intros n s w k Hi T w'.
+  pose proof (c04_crash_prefix_clean n w (svc_open n s) k (svc_open_disc n s w Hi T)) as [H _]. fold w' in H.
+  split; [exact H|]. destruct (mem (RegN s n) (cleanup n w')) eqn:E; auto.
+  apply mem_In in E. apply H in E. cbn in E. rewrite Nat.eqb_refl in E. discriminate.
+Qed.
+Print Assumptions c04_open_crash_clean.
+
+(* the inverted order (registry entry first) does not keep the discipline: behind its first step the registry entry
+   of the dead node survives the cleanup for ever (the slot of the service's node table is lost) *)
+Theorem c04_open_registry_before_tag_refuted :
+  ~ (forall n s w, inv n w = true -> mem (Tok n) w = true -> disc n w (svc_open_swapped n s) = true).
+Proof.
+  intros H. destruct svc_open_swapped_breaks as [I [T B]]. rewrite (H 1 1 w_open I T) in B. discriminate.
+Qed.
+Print Assumptions c04_open_registry_before_tag_refuted.
+
+Theorem c04_open_registry_before_tag_leaks :
+  let w' := crash 1 (svc_open_swapped 1 1) w_open in
+  mem (RegN 1 1) (cleanup 1 w') = true /\ solely 1 w' (RegN 1 1) = true /\ mem (Tok 1) (cleanup 1 w') = false.
+Proof. vm_compute. repeat split; reflexivity. Qed.
+Print Assumptions c04_open_registry_before_tag_leaks.
+
 (* ---- cleanup can be repeated: a second cleanup after a completed one changes nothing ---- *)
 Theorem c04_cleanup_idempotent : forall n w, cleanup n (cleanup n w) = cleanup n w.
 Proof. exact cleanup_idempotent. Qed.
